@@ -381,7 +381,10 @@ func c15Case(c *mon.Ctx, i int) {
 				args = append(args, in.path)
 			}
 		}
+		pipe0, file0 := cliStdinPipe.Load(), cliStdinFile.Load()
 		out, se, code := runCLI(stdin, dir, args...)
+		c.R.Count("stdin_through_a_pipe", cliStdinPipe.Load()-pipe0)
+		c.R.Count("stdin_from_a_regular_file", cliStdinFile.Load()-file0)
 		c.R.Count("evaluations", 1)
 		c.R.Count("cli_invocations", 1)
 		c.R.Distinct("cli_shapes", fmt.Sprintf("%s/%s/stdin=%v/files=%d", ins[0].format, outMode, useStdin, n))
@@ -579,6 +582,8 @@ func init() {
 		Cases:       func(c *mon.Ctx) int { return c.Pick(5000, 60000) },
 		RunCase:     c15Case,
 		Finish: func(c *mon.Ctx, r *mon.Report, ev *mon.Evidence) []string {
+			ev.Coverage["stdin_through_a_pipe"] = r.Counters["stdin_through_a_pipe"]
+			ev.Coverage["stdin_from_a_regular_file"] = r.Counters["stdin_from_a_regular_file"]
 			var gates []string
 			ev.Coverage["cli_shapes"] = r.SetKeys("cli_shapes")
 			ev.Coverage["undecodable_kinds"] = r.Sets["undecodable_kinds"]
